@@ -101,6 +101,11 @@ def multi_case(j, e, sigma):
                 "SO3.Exp(Nx3_array,so3=False)": (lambda: SO3.Exp(Ws, so3=False), Rs, 1.0),
                 "SO3.Exp(3x3_so(3)_matrix)": (lambda: SO3.Exp(b.skew(Ws[0])), Rs[:1], 1.0),
                 "Twist3(Nx6).exp()": (lambda: Twist3([s_ for s_ in Ss]).exp(), Ms, sc),
+                # the same sequence with a PURE TRANSLATION in front (the first value must not decide for the others)
+                "Twist3([transl]+Nx6).exp()": (lambda: Twist3([np.r_[1.0, -2.0, 0.5, 0, 0, 0]] + [s_ for s_ in Ss]).exp(),
+                                               [b.transl(1.0, -2.0, 0.5)] + Ms, sc + 3.0),
+                "Twist3([transl]+Nx6).exp(1)": (lambda: Twist3([np.r_[1.0, -2.0, 0.5, 0, 0, 0]] + [s_ for s_ in Ss]).exp(1.0),
+                                                [b.transl(1.0, -2.0, 0.5)] + Ms, sc + 3.0),
                 "Twist3(Nx6).SE3()": (lambda: Twist3([s_ for s_ in Ss]).SE3(), Ms, sc)}
         X = SE3([M for M in Ms], check=False)
         XR = SO3([R for R in Rs], check=False)
@@ -236,6 +241,34 @@ def lattice_case(j, e, sigma):
             if ok and th <= math.pi - 1e-6:
                 ok = float(np.max(np.abs(L - w))) <= TOL
             check(j, ok, site, feat, "wrong-logarithm", dict(detail, got=L.tolist()), cid)
+    elif k == "unittrans":
+        d = np.array(c["d"], dtype=float)
+        u = d / c["len"]
+        dist = float(c["n"] * c["len"]) * sigma
+        feat = "unittrans;n=%d;sigma=%g" % (c["n"], sigma)
+        detail = {"kind": k, "case": c, "sigma": sigma, "theta": dist}
+        U = np.r_[u, 0.0, 0.0, 0.0]
+        forms = {"base.trexp(prismatic_unit,theta)": lambda: b.trexp(U, dist), "base.trexp(prismatic_matrix,theta)": lambda: b.trexp(b.skewa(U), dist),
+                 "Twist3.exp(theta)": lambda: Twist3(U).exp(dist).A, "Twist3.Prismatic.exp(theta)": lambda: Twist3.Prismatic(d).exp(dist).A,
+                 "Twist3*theta.exp": lambda: (Twist3(U) * dist).exp().A, "base.trexp(theta*S)": lambda: b.trexp(U * dist)}
+        for site, fn in forms.items():
+            cid = (site, k, c["n"], sigma)
+            r = guard(j, site, feat, detail, cid, fn)
+            if r is not None:
+                dd = float(np.max(np.abs(np.asarray(r, dtype=float) - M)))
+                check(j, dd <= TOL * sc, site, feat, "not-the-translation-by-theta", dict(detail, distance=dd), cid)
+        if c["d"][2] == 0:
+            H = gamma.T3(e["m"], sigma)
+            U2 = np.r_[u[:2], 0.0]
+            forms2 = {"base.trexp2(prismatic_unit,theta)": lambda: b.trexp2(U2, dist), "base.trexp2(prismatic_matrix,theta)": lambda: b.trexp2(b.skewa(U2), dist),
+                      "Twist2.exp(theta)": lambda: Twist2(U2).exp(dist).A, "Twist2.Prismatic.exp(theta)": lambda: Twist2.Prismatic(d[:2]).exp(dist).A,
+                      "base.trexp2(theta*S)": lambda: b.trexp2(U2 * dist)}
+            for site, fn in forms2.items():
+                cid = (site, k, c["n"], sigma)
+                r = guard(j, site, feat, detail, cid, fn)
+                if r is not None:
+                    dd = float(np.max(np.abs(np.asarray(r, dtype=float) - H)))
+                    check(j, dd <= TOL * sc, site, feat, "not-the-translation-by-theta", dict(detail, distance=dd), cid)
     elif k == "unit3":
         # two-argument form exp(U, theta): U = unit twist of the zero-pitch screw (q, p), theta = n * angle(q)
         S, th = twist_of(dict(c, an=0, ad=1))
@@ -429,7 +462,7 @@ def run(tier):
         n += 1
         if e["c"]["k"] == "screw3" and not thorough and n % 4:
             continue
-        if e["c"]["k"] in ("unit3", "unit2", "multi3", "multi2"):
+        if e["c"]["k"] in ("unit3", "unit2", "multi3", "multi2", "unittrans"):
             scales = [1.0, 1e3] if thorough else [1.0]
         else:
             scales = [1.0, 1e-6, 1e3, 1e6] if (thorough or n % 8 == 0 or e["c"]["k"] != "screw3") else [1.0]
